@@ -16,3 +16,4 @@ def run(chk):
     c06.run(chk, alg_filter=lambda a: a not in AEAD_ALGS and a not in ('IMB_AUTH_NULL', 'IMB_AUTH_CUSTOM'), only_cells=True,
             ids=('B2c', 'B2', 'B2o'))
     clones.rule_clones(chk, 'N1', select=lambda s: bool(_re.search(r'cmac|xcbc|ghash|gmac|ccm_auth', s)), floor=3)
+    clones.rule_defuse(chk, 'D1', 'D2', ('hash',), floor=50)
